@@ -35,6 +35,10 @@ KINDS = ["textx-no-location", "textx-own-location", "textx-own-linecol-only", "w
          "semantic-no-location"]
 # "group": the same grammar with the value rule written with one regex group, meta-model created with use_regexp_group=True
 GRAMMAR_GROUP = GRAMMAR.replace("Val: /\\d+/;", "Val: /(\\d+)/;")
+# "composite": the value rule is a match rule with several parts (the processor is then called for the rule, not for a terminal)
+GRAMMAR_COMPOSITE = GRAMMAR.replace("Val: /\\d+/;", "Val: '+'? /\\d+/ '%'?;")
+# "goff": one regex group that does not start where the match starts (values are written v101), use_regexp_group=True
+GRAMMAR_GOFF = GRAMMAR.replace("Val: /\\d+/;", "Val: /v(\\d+)/;")
 LAYOUTS = ["plain", "leading-newlines", "indented", "newline-separated", "mixed"]
 _S = {}
 
@@ -65,7 +69,10 @@ def mm(kind):
         _S["mm"] = metamodel_from_str(GRAMMAR)
         assert GRAMMAR_GROUP != GRAMMAR
         _S["mm-group"] = metamodel_from_str(GRAMMAR_GROUP, use_regexp_group=True)
-    return _S["mm-group" if kind == "group" else "mm"]
+        assert GRAMMAR_COMPOSITE != GRAMMAR and GRAMMAR_GOFF != GRAMMAR
+        _S["mm-composite"] = metamodel_from_str(GRAMMAR_COMPOSITE)
+        _S["mm-goff"] = metamodel_from_str(GRAMMAR_GOFF, use_regexp_group=True)
+    return _S["mm-" + kind if kind else "mm"]
 
 
 def run_case(f, target, tkind, ekind, source, how, mmk=None):
@@ -76,6 +83,8 @@ def run_case(f, target, tkind, ekind, source, how, mmk=None):
     nm = trees.names(f)
     vals = {p: 100 + i for i, (p, k) in enumerate(trees.flatten(f)) if k == "l"}
     text = layout(trees.render(f, nm, None, vals).split(" "), how)
+    if mmk == "goff":
+        text = re.sub(r"\b(1\d\d)\b", r"v\1", text)
     m_ = mm(mmk)
     m_.register_obj_processors({"Val": lambda x: int(x)})
     clean = m_.model_from_str(text)
@@ -83,7 +92,7 @@ def run_case(f, target, tkind, ekind, source, how, mmk=None):
     if tkind == "object":
         start, end = obj._tx_position, obj._tx_position_end
     else:
-        mt = re.search(r"\b%d\b" % vals[target], text)
+        mt = re.search(r"\b%s%d\b" % ("v" if mmk == "goff" else "", vals[target]), text)
         start, end = mt.start(), mt.end()
     line, col = linecol(text, start)
     fn = None
@@ -128,7 +137,7 @@ def run_case(f, target, tkind, ekind, source, how, mmk=None):
         procs[cls] = objproc_
     m_.register_obj_processors(procs)
     obs = {"text": text, "target": tname if tkind == "object" else "value %s" % tval, "error_kind": ekind, "source": source, "layout": how,
-           "metamodel": "use_regexp_group=True, Val: /(\\d+)/" if mmk == "group" else "default"}
+           "metamodel": {"group": "use_regexp_group=True, Val: /(\\d+)/", "composite": "Val: '+'? /\\d+/ '%'?", "goff": "use_regexp_group=True, Val: /v(\\d+)/"}.get(mmk, "default")}
     try:
         if source == "file":
             m_.model_from_file(fn)
@@ -164,7 +173,7 @@ def work(arg):
                 for ekind in KINDS:
                     for source in ("str", "file"):
                         for how in LAYOUTS:
-                            for mmk in ((None, "group") if tkind == "match" else (None,)):
+                            for mmk in ((None, "group", "composite", "goff") if tkind == "match" else (None,)):
                                 cid = [f, p, tkind, ekind, source, how, mmk]
                                 with watchdog(20):
                                     ok, obs = run_case(f, p, tkind, ekind, source, how, mmk)
